@@ -52,21 +52,24 @@ func tarsWalk(pkt []byte) (int64, []tarsCount) {
 		}
 		w := map[byte]int{0: 1, 1: 2, 2: 4, 3: 8, 12: 0}
 		l, isInt := w[t]
-		if !isInt || i+l > len(b) {
+		if !isInt {
 			return 0, false
 		}
+		// a truncated integer is read leniently (zero padded): TarsGo's reader does not insist either
+		var raw [8]byte
+		copy(raw[:l], b[i:min(i+l, len(b))])
 		var v int64
 		switch l {
 		case 1:
-			v = int64(int8(b[i]))
+			v = int64(int8(raw[0]))
 		case 2:
-			v = int64(int16(binary.BigEndian.Uint16(b[i:])))
+			v = int64(int16(binary.BigEndian.Uint16(raw[:])))
 		case 4:
-			v = int64(int32(binary.BigEndian.Uint32(b[i:])))
+			v = int64(int32(binary.BigEndian.Uint32(raw[:])))
 		case 8:
-			v = int64(binary.BigEndian.Uint64(b[i:]))
+			v = int64(binary.BigEndian.Uint64(raw[:]))
 		}
-		i += l
+		i = min(i+l, len(b))
 		return v, true
 	}
 	var worst int64
@@ -174,4 +177,78 @@ func tarsSetCount(pkt []byte, c tarsCount, v uint32) []byte {
 	out = append(out, pkt[c.End:]...)
 	binary.BigEndian.PutUint32(out, uint32(int(binary.BigEndian.Uint32(pkt))+len(out)-len(pkt)))
 	return out
+}
+
+// dubboAnnouncedCount looks at the four leading hessian fields of a dubbo request (independent walk
+// over the hessian2 string encodings) and, if one of them is not a string, returns the largest 32-bit
+// count ('I' b3 b2 b1 b0) found in the bytes behind that tag - an over-approximation of the element
+// count a class definition / list / object in that position can announce. 0 if all four are strings.
+func dubboAnnouncedCount(in []byte) int64 {
+	if len(in) < 17 || in[2]&0x80 == 0 || in[2]&0x20 != 0 {
+		return 0 // not a request, or an event
+	}
+	b := in[16:]
+	i := 0
+	skipChars := func(n int) bool {
+		for ; n > 0; n-- {
+			if i >= len(b) {
+				return false
+			}
+			switch c := b[i]; {
+			case c < 0x80:
+				i++
+			case c&0xe0 == 0xc0:
+				i += 2
+			case c&0xf0 == 0xe0:
+				i += 3
+			default:
+				i++
+			}
+		}
+		return i <= len(b)
+	}
+	for f := 0; f < 4 && i < len(b); f++ {
+		t := b[i]
+		switch {
+		case t <= 0x1f:
+			i++
+			if !skipChars(int(t)) {
+				return 0
+			}
+		case t >= 0x30 && t <= 0x33:
+			if i+1 >= len(b) {
+				return 0
+			}
+			n := int(t-0x30)<<8 | int(b[i+1])
+			i += 2
+			if !skipChars(n) {
+				return 0
+			}
+		case t == 'S' || t == 'R':
+			if i+2 >= len(b) {
+				return 0
+			}
+			n := int(b[i+1])<<8 | int(b[i+2])
+			i += 3
+			if !skipChars(n) {
+				return 0
+			}
+			if t == 'R' {
+				f-- // a non-final chunk: the string goes on
+			}
+		case t == 'N':
+			i++
+		default:
+			var worst int64
+			for j := i; j+4 < len(b) && j < i+400; j++ {
+				if b[j] == 'I' {
+					if v := int64(int32(binary.BigEndian.Uint32(b[j+1:]))); v > worst {
+						worst = v
+					}
+				}
+			}
+			return worst
+		}
+	}
+	return 0
 }
